@@ -343,10 +343,29 @@ def _fields(projs):
     return tuple(x[2] for x in projs if isinstance(x, (list, tuple)) and x[0] == "f")
 
 
+def _sel(fn, projs, depth, transparent):
+    """projection list -> selectors: field names (str) and ('idx', term) / ('cidx', n, from_end) entries"""
+    out = []
+    for x in projs:
+        if not isinstance(x, (list, tuple)):
+            continue
+        if x[0] == "f":
+            out.append(x[2])
+        elif x[0] == "i":
+            out.append(("idx", expr(fn, {"c": x[1]}, depth - 1, transparent)))
+        elif x[0] == "ci":
+            out.append(("cidx", x[1], bool(x[2])))
+        elif x[0] == "sub":
+            out.append(("sub", x[1], x[2], bool(x[3])))
+    return tuple(out)
+
+
 def expr(fn, o, depth=14, transparent=TRANSPARENT):
     """operand -> term:
-         ('const', name|value) | ('arg', n, fields) | ('call', name, (terms...), fields, path) |
-         ('bin', op, a, b) | ('un', op, a) | ('agg', what, (terms...)) | ('phi', local, fields) | ('rv', kind) | ('deep',)"""
+         ('const', name|value) | ('arg', n, sel) | ('call', name, (terms...), sel, path) |
+         ('bin', op, a, b) | ('un', op, a) | ('agg', what, (terms...), fieldnames) | ('phi', local, sel) |
+         ('iter', start, end) (the variable of `for _ in start..end`) | ('rv', kind) | ('deep',)
+       sel = tuple of selectors applied to the value: field names and ('idx', term) entries."""
     if depth <= 0:
         return ("deep",)
     if "k" in o:
@@ -357,7 +376,7 @@ def expr(fn, o, depth=14, transparent=TRANSPARENT):
         return ("const", nm.rsplit("::", 1)[-1] if isinstance(nm, str) else nm)
     p = op_place(o)
     l, projs = place_parts(p)
-    fields = _fields(projs)
+    fields = _sel(fn, projs, depth, transparent)
     defs = fn.defs()
     ds = defs.get(l, [])
     if not ds:
@@ -375,10 +394,12 @@ def expr(fn, o, depth=14, transparent=TRANSPARENT):
             return ("arg", t[1], t[2] + fs)
         if t[0] == "phi":
             return ("phi", t[1], t[2] + fs)
-        if t[0] == "agg" and t[3] and fs[0] in t[3]:
+        if t[0] == "agg" and t[3] and isinstance(fs[0], str) and fs[0] in t[3]:
             return with_fields(t[2][t[3].index(fs[0])], fs[1:])
         if t[0] == "call":
             return ("call", t[1], t[2], t[3] + fs, t[4])
+        if t[0] == "proj":
+            return ("proj", t[1], t[2] + fs)
         return ("proj", t, fs)
 
     if d[2] == "call":
@@ -391,6 +412,10 @@ def expr(fn, o, depth=14, transparent=TRANSPARENT):
             if name in ("branch", "unwrap", "expect") and fs[:1] == ("0",):
                 fs = fs[1:]
             return with_fields(inner, fs)
+        if name == "next" and len(t["args"]) == 1 and fields[:1] == ("0",):
+            it = expr(fn, t["args"][0], depth - 1, transparent)
+            if it[0] == "agg" and it[1] in ("Range", "RangeInclusive") and len(it[2]) >= 2:
+                return with_fields(("iter", it[2][0], it[2][1]) if it[1] == "Range" else ("iter=", it[2][0], it[2][1]), fields[1:])
         return ("call", name, tuple(expr(fn, a, depth - 1, transparent) for a in t["args"]), fields, t["f"].get("path") or "")
     if d[2] != "assign":
         return ("rv", d[2])
@@ -401,7 +426,7 @@ def expr(fn, o, depth=14, transparent=TRANSPARENT):
     if k == "ref" or k == "addr":
         return with_fields(expr(fn, {"c": r["p"]}, depth - 1, transparent), fields)
     if k == "bin":
-        return ("bin", r["op"], expr(fn, r["a"], depth - 1, transparent), expr(fn, r["b"], depth - 1, transparent))
+        return with_fields(("bin", r["op"], expr(fn, r["a"], depth - 1, transparent), expr(fn, r["b"], depth - 1, transparent)), fields)
     if k == "un":
         return ("un", r.get("op"), expr(fn, r["o"], depth - 1, transparent))
     if k == "agg":
@@ -409,6 +434,20 @@ def expr(fn, o, depth=14, transparent=TRANSPARENT):
         t = ("agg", what, tuple(expr(fn, a, depth - 1, transparent) for a in r.get("ops", [])), tuple(r.get("fields") or [str(i) for i in range(len(r.get("ops", [])))]))
         return with_fields(t, fields)
     return ("rv", k)
+
+
+def _showsel(fs):
+    out = ""
+    for f in fs:
+        if isinstance(f, str):
+            out += "." + f
+        elif f[0] == "idx":
+            out += "[%s]" % show(f[1])
+        elif f[0] == "cidx":
+            out += "[%s%d]" % ("-" if f[2] else "", f[1])
+        else:
+            out += "[%s]" % (f,)
+    return out
 
 
 def show(t):
@@ -419,11 +458,11 @@ def show(t):
     if h == "const":
         return str(t[1])
     if h == "arg":
-        return "arg%d%s" % (t[1], "".join("." + f for f in t[2]))
+        return "arg%d%s" % (t[1], _showsel(t[2]))
     if h == "phi":
-        return "phi%d%s" % (t[1], "".join("." + f for f in t[2]))
+        return "phi%d%s" % (t[1], _showsel(t[2]))
     if h == "call":
-        return "%s(%s)%s" % (t[1], ", ".join(show(a) for a in t[2]), "".join("." + f for f in t[3]))
+        return "%s(%s)%s" % (t[1], ", ".join(show(a) for a in t[2]), _showsel(t[3]))
     if h == "bin":
         return "(%s %s %s)" % (show(t[2]), t[1], show(t[3]))
     if h == "un":
@@ -431,7 +470,9 @@ def show(t):
     if h == "agg":
         return "%s{%s}" % (t[1], ", ".join(show(a) for a in t[2]))
     if h == "proj":
-        return "%s%s" % (show(t[1]), "".join("." + f for f in t[2]))
+        return "%s%s" % (show(t[1]), _showsel(t[2]))
+    if h in ("iter", "iter="):
+        return "i<%s..%s%s>" % (show(t[1]), "=" if h == "iter=" else "", show(t[2]))
     return h
 
 
